@@ -1145,7 +1145,7 @@ def run(tier='quick', seed=0, jobs=16, deadline_s=None):
     comparisons = set()
     n_tuples = 0
     if jobs > 1:
-        pool = multiprocessing.Pool(jobs)
+        pool = multiprocessing.get_context('fork').Pool(jobs)
         results = pool.imap_unordered(_worker, args, chunksize=1)
     else:
         pool = None
